@@ -13,6 +13,7 @@ Leaf event (JSON-able dict)
   acc (MEI) how the accidental is written: 'attr' | 'ges' | 'child' | 'childges'
   st  (MEI) staff attribute written on the element (cross-staff notation)
   clef (MEI) ['F', 4]: a <clef> element is written in the layer just before this event
+  nosym (export->load parts only) the object is created without symbolic_duration; there 's' is a gap in the voice
 Containers (any nesting):  {'k': 'tup', 'num': 3, 'nb': 2, 'ev': [...]}   {'k': 'beam', 'ev': [...]}
 """
 from fractions import Fraction as F
